@@ -1,5 +1,6 @@
 import PyYetiVerif.Props.C02g
 import PyYetiVerif.Props.C02i
+import PyYetiVerif.Props.C02j
 import PyYetiVerif.Lemmas.FreqWitness
 /-!
 # C02 — non-vacuity of `colSU_solves` / `colFD_solves`
@@ -111,6 +112,29 @@ example : ∃ sol, colSU envCoup stCoup false (some eig) (fun _ => 1) 2 = .ok so
         cases hed
         exact ⟨fun _ => ![2, 3], by decide, by decide, by decide, by decide, by decide⟩) sol h
 
+/-- `colSU_eq_colFD_unc` on the system with the damped rigid-body mode: both solvers return a column
+and the two columns are equal row by row -/
+example : ∃ solSU solFD, colSU envUncD stUnc true none (fun _ => 1) 1 = .ok solSU ∧
+    colFD envUncD lay (fun _ => 1) 1 = .ok solFD ∧ ∀ r, r < 3 → rowOf solSU r = rowOf solFD r := by
+  have h1 : (match colSU envUncD stUnc true none (fun _ => 1) 1 with
+      | .ok sol => sol.length
+      | .error _ => 0) = 3 := by decide +kernel
+  have h2 : (match colFD envUncD lay (fun _ => 1) 1 with
+      | .ok sol => sol.length
+      | .error _ => 0) = 3 := by decide +kernel
+  cases hs : colSU envUncD stUnc true none (fun _ => 1) 1 with
+  | error m => rw [hs] at h1; cases h1
+  | ok solSU =>
+    cases hf : colFD envUncD lay (fun _ => 1) 1 with
+    | error m => rw [hf] at h2; cases h2
+    | ok solFD =>
+      refine ⟨solSU, solFD, rfl, rfl, ?_⟩
+      exact colSU_eq_colFD_unc envUncD (fun x => by simp [envUncD, envUnc]) lay (by decide) (by decide)
+        (by decide) (by decide) (fun r => by simp [lay]) true stUnc (by decide) (fun _ => 1) 1
+        one_ne_zero (by decide) rfl rfl (fun h => by cases h) rfl
+        (fun r c hne => by simp [envUncD, envUnc, hne]) (by decide) (by decide) (by decide) (by decide)
+        solSU solFD hs hf
+
 /-- `FreqDirect`, uncoupled branch and coupled branch (`la.solve` = `gaussList`) -/
 example : (∃ sol, colFD envUnc lay (fun _ => 1) 1 = .ok sol ∧
       ∀ r, r < 3 →
@@ -194,5 +218,39 @@ example : (∃ sol, colSU { envUnc with inc := ⟨false, true, false⟩, dispOnl
         | .error _ => 0) = 3 := by decide +kernel
     rw [hsol] at hres
     exact ⟨sol, hsol, hres⟩
+
+/-- `colSU_solves_options` on the system with the damped rigid-body mode, `incrb = "v"`,
+`rf_disp_only = True`: the column exists, the rigid-body row keeps only `v = 2`, and the full-size
+equation holds on the elastic and residual-flexibility rows -/
+example : ∃ sol, colSU { envUncD with inc := ⟨false, true, false⟩, dispOnly := true } stUnc true none
+      (fun _ => 1) 1 = .ok sol ∧
+    sol.map (fun x => (x.d, x.v, x.a)) = [(0, 2, 0), (2, 4, 3), (2, 0, 0)] ∧
+    ∀ r, r < 3 → r ∉ lay.rb →
+      ((List.range 3).map fun c =>
+        partStiff envUncD.i 1 envUncD.M envUncD.rbDamping envUncD.B envUncD.K lay.rb lay.el lay.rf r c *
+          (rowOf sol c).d).sum = (fun _ => 1) r := by
+  have href : ∃ solRef, colSU (ColEnv.ref { envUncD with inc := ⟨false, true, false⟩, dispOnly := true })
+      stUnc true none (fun _ => 1) 1 = .ok solRef := by
+    have hres : (match colSU (ColEnv.ref { envUncD with inc := ⟨false, true, false⟩, dispOnly := true })
+          stUnc true none (fun _ => 1) 1 with
+        | .ok sol => sol.length
+        | .error _ => 0) = 3 := by decide +kernel
+    cases h : colSU (ColEnv.ref { envUncD with inc := ⟨false, true, false⟩, dispOnly := true })
+        stUnc true none (fun _ => 1) 1 with
+    | error m => rw [h] at hres; cases hres
+    | ok sol => exact ⟨sol, rfl⟩
+  obtain ⟨solRef, href⟩ := href
+  obtain ⟨sol, hsol, hrows⟩ := colSU_solves_options
+    { envUncD with inc := ⟨false, true, false⟩, dispOnly := true } (fun x => by simp [envUncD, envUnc])
+    lay (by decide) (by decide) (by decide) true (fun _ => rfl) stUnc (by decide) none (fun _ => 1) 1
+    one_ne_zero (by decide) (fun h => by cases h)
+    (fun _ => ⟨fun r c hne => by simp [envUncD, envUnc, hne], by decide, by decide, by decide, by decide⟩)
+    (fun h => by cases h) solRef href
+  have hres : (match colSU { envUncD with inc := ⟨false, true, false⟩, dispOnly := true } stUnc true none
+        (fun _ => 1) 1 with
+      | .ok sol => sol.map fun x => (x.d, x.v, x.a)
+      | .error _ => []) = [(0, 2, 0), (2, 4, 3), (2, 0, 0)] := by decide +kernel
+  rw [hsol] at hres
+  exact ⟨sol, hsol, hres, fun r hr hnot => (hrows r hr).1 (Or.inl hnot)⟩
 
 end PyYetiVerif.C02
